@@ -75,7 +75,7 @@ Qed.
 (** The accepted reader shapes are the model reader, on every input (well-formed or not). *)
 Theorem reader_ok_is_read_cstr r : reader_ok r = true -> forall bs, read_cstr_r r bs = read_cstr bs.
 Proof.
-  destruct r as [n|n|n]; cbn [reader_ok]; intros H bs; [|discriminate|].
+  destruct r as [n|n|n|n]; cbn [reader_ok]; intros H bs; [|discriminate| |discriminate].
   - apply N.eqb_eq in H. subst n. unfold read_cstr_r. change (N.to_nat 1) with 1%nat.
     rewrite accum_loop_1 by lia. apply lift_nil.
   - apply N.ltb_lt in H. unfold read_cstr_r. rewrite block_loop_ok by lia. apply lift_nil.
@@ -177,4 +177,15 @@ Example ncodec_pinned_ok : ncodec_ok ncodec_pinned = true
   /\ reader_ok (RBlockLoop 256) = true
   /\ iter_nullstr_k ncodec_pinned (write_section_k ncodec_pinned [[116; 120; 116]; []; repeat 101 300] ++ [1; 2])
      = Some ([[116; 120; 116]; []; repeat 101 300], [1; 2]).
+Proof. vm_compute. repeat split; reflexivity. Qed.
+
+(** Seeded c13_6: blocks of 128 in an inner loop, rewind relative to the first block with the index found in the last one.  A string
+    of 127 characters is read and the file left after its terminator; for a string of 128 characters the string is still right but the
+    file is left at position 1 — inside the string — so everything after it is misread.  Not accepted by [reader_ok]. *)
+Theorem nullstr_block_rel_refuted :
+  let s127 := repeat 97 127 in let s128 := repeat 97 128 in
+  reader_ok (RBlockLoopRel 128) = false
+  /\ read_cstr_r (RBlockLoopRel 128) (s127 ++ 0 :: [7; 8]) = Some (s127, [7; 8])
+  /\ read_cstr_r (RBlockLoopRel 128) (s128 ++ 0 :: [7; 8]) = Some (s128, repeat 97 127 ++ 0 :: [7; 8])
+  /\ read_cstr_r (RBlockLoop 128) (s128 ++ 0 :: [7; 8]) = Some (s128, [7; 8]).
 Proof. vm_compute. repeat split; reflexivity. Qed.
